@@ -30,7 +30,8 @@ def twips(inches: float) -> int:
 
 
 def display(v) -> str:
-    """display text of a data value: empty for null, otherwise its str()"""
+    """display text of a data value: empty for null, otherwise its str() (dates are kept as ISO
+    strings in the specs and that is also their str())"""
     return "" if v is None else str(v)
 
 
@@ -137,15 +138,23 @@ def row_role(texts: list[str]) -> str | None:
     return None
 
 
-def page_roles(page):
-    """[(role, block)] for the content blocks of a parsed page; role None = unclassifiable"""
+def page_roles(page, extra=None):
+    """[(role, block)] for the content blocks of a parsed page; role None = unclassifiable.
+    extra = {"heading": set_of_texts, "subline_by": set_of_texts}: group values that do not follow the
+    sentinel scheme (numbers, colliding strings) but are known from the spec"""
     from .reader import content_blocks
     out = []
     for b in content_blocks(page):
         if b.kind == "para":
-            out.append((para_role(b.text), b))
+            role = para_role(b.text)
+            if role is None and extra and b.text in extra.get("subline_by", ()):
+                role = "subline_by"
+            out.append((role, b))
         elif b.kind == "row":
-            out.append((row_role(b.texts), b))
+            role = row_role(b.texts)
+            if role is None and extra and len(b.texts) == 1 and b.texts[0] in extra.get("heading", ()):
+                role = "heading"
+            out.append((role, b))
         else:
             out.append(("pict", b))
     return out
